@@ -247,6 +247,47 @@ func main() {
 	} else {
 		o.Fail("func (*function).diffEnv not found")
 	}
+	// the reason switch: is there a case for "no known part differs"?
+	reasonCase0 := false
+	if fd := fn.Func("function.diffEnv"); fd != nil {
+		ast.Inspect(fd.Body, func(n ast.Node) bool {
+			if sw, ok := n.(*ast.SwitchStmt); ok && sw.Tag != nil && src(sw.Tag) == "len(reasons)" {
+				for _, st := range sw.Body.List {
+					if cc, ok := st.(*ast.CaseClause); ok && len(cc.List) == 1 && src(cc.List[0]) == "0" {
+						for _, b := range cc.Body {
+							if r, ok := b.(*ast.ReturnStmt); ok && len(r.Results) == 4 && src(r.Results[0]) == "false" && src(r.Results[3]) == "nil" {
+								reasonCase0 = true
+							}
+						}
+					}
+				}
+			}
+			return true
+		})
+	}
+	o.Def("reasonHandlesNoKnownPart", "Bool", boolLit(reasonCase0))
+	if reasonCase0 {
+		fmt.Println("reason=safe")
+	} else {
+		fmt.Println("reason=old")
+	}
+	// the keys envUnpickler writes into the decoded environment
+	var ukeys []string
+	if fd := fn.Func("envUnpickler"); fd != nil {
+		ast.Inspect(fd.Body, func(n ast.Node) bool {
+			if c, ok := n.(*ast.CallExpr); ok && strings.HasSuffix(src(c.Fun), ".SetKey") && len(c.Args) == 2 {
+				if k, ok := c.Args[0].(*ast.CallExpr); ok && src(k.Fun) == "starlark.String" && len(k.Args) == 1 {
+					if bl, ok := k.Args[0].(*ast.BasicLit); ok {
+						if sv, ok := lib.Unquote(bl); ok {
+							ukeys = append(ukeys, sv)
+						}
+					}
+				}
+			}
+			return true
+		})
+	}
+	o.Def("unpicklerKeys", "List String", strList(ukeys))
 	o.Def("compareLimits", "List Nat", lib.LeanNatList(limits))
 	o.Def("equalEncodingsFirst", "Bool", boolLit(encFirst))
 	o.Def("equalDecodingsUpToDate", "Bool", boolLit(eqUpToDate))
@@ -258,6 +299,63 @@ func main() {
 		}
 		o.Def(strings.ReplaceAll(strings.TrimPrefix(name, "function."), ".", "")+"Body", "String", lib.LeanLongString(lib.NormFunc(fd)))
 	}
+
+	// 4b. target.go: which reason wins when several conditions hold (the cases of the switch in runTarget.Evaluate, in order)
+	var precedence []string
+	if tg, err := lib.Parse(*repo, "target.go"); err != nil {
+		o.Fail("parse target.go: %v", err)
+	} else if fd := tg.Func("runTarget.Evaluate"); fd == nil {
+		o.Fail("func (*runTarget).Evaluate not found")
+	} else {
+		ast.Inspect(fd.Body, func(n ast.Node) bool {
+			sw, ok := n.(*ast.SwitchStmt)
+			if !ok || sw.Tag != nil || precedence != nil {
+				return true
+			}
+			var conds []string
+			assignsReason := false
+			for _, st := range sw.Body.List {
+				cc, ok := st.(*ast.CaseClause)
+				if !ok {
+					continue
+				}
+				var cs []string
+				for _, e := range cc.List {
+					cs = append(cs, src(e))
+				}
+				if cc.List == nil {
+					cs = []string{"default"}
+				}
+				what := "keep"
+				for _, b := range cc.Body {
+					if as, ok := b.(*ast.AssignStmt); ok && len(as.Lhs) == 1 && src(as.Lhs[0]) == "reason" {
+						assignsReason = true
+						what = "set"
+						if bl, ok := as.Rhs[0].(*ast.BasicLit); ok {
+							if v, ok := lib.Unquote(bl); ok {
+								what = "set " + v
+							}
+						} else if c, ok := as.Rhs[0].(*ast.CallExpr); ok && len(c.Args) > 0 {
+							if bl, ok := c.Args[0].(*ast.BasicLit); ok {
+								if v, ok := lib.Unquote(bl); ok {
+									what = "set " + v
+								}
+							}
+						}
+					}
+				}
+				conds = append(conds, strings.Join(cs, ",")+" => "+what)
+			}
+			if assignsReason {
+				precedence = conds
+			}
+			return true
+		})
+		if precedence == nil {
+			o.Fail("the switch that chooses the rebuild reason was not found in runTarget.Evaluate")
+		}
+	}
+	o.Def("reasonPrecedence", "List String", strList(precedence))
 
 	// 5. pickle/encode.go: what the traversal model takes from the encoder
 	reencode := false
